@@ -321,7 +321,20 @@ class CallMixin:
         self.env[pn] = nv
         post[pn] = nv
       saved_old = getattr(self, 'call_old_env', None)
-      if post:
+      hm = getattr(c, 'heap_mutates', ())
+      if hm:
+        # fields of heap objects the callee writes: havocked at that object only (old(...) = the heap at the call)
+        self.spec_env_old = dict(self.env)
+        for pn, fld in hm:
+          recv = self.env[pn]
+          (rp_, cn_), b_ = self.heap_binding(recv.sort)
+          hn = self.heap_name(cn_, fld)
+          h = self.env[hn]
+          fs_ = b_[2][fld]
+          nv = V(fs_, fs_.fresh('post_%s_%s' % (pn, fld)))
+          self.assume_wf(nv)
+          self.env[hn] = V(h.sort, h.sort.put(h.t, recv.t, nv.t))
+      if post or hm:
         self.call_old_env = dict(self.spec_env_old)
       try:
         for r in c.ensures:
@@ -329,6 +342,10 @@ class CallMixin:
       finally:
         self.call_old_env = saved_old
       self.used_contracts.add(c.label)
+      if hm:
+        for hn, hv in list(self.env.items()):
+          if hn.startswith('$H.'):
+            saved_env[hn] = hv      # the callee's heap writes are visible to the caller
       if post:
         self.env, self.cur_module = saved_env, saved_mod
         fdef_ = source.load(self.repo, c.file).func(c.qualname)
